@@ -456,3 +456,17 @@ package encoder
 //@   ensures len(c.Ptrs) >= codelen && c.Ptrs[0] == p
 //@   ensures len(c.KeepRefs) == 0 && len(c.SeenPtr) == 0 && c.BaseIndent == 0
 //@   assigns RuntimeContext.Ptrs, RuntimeContext.KeepRefs, RuntimeContext.SeenPtr, RuntimeContext.BaseIndent, class M
+
+// ---------------------------------------------------------------- float emitters (C03)
+// JSON has no spelling for NaN and the infinities: the emitters must never be reached with one.
+//@ func AppendFloat32(ctx, b, v) (out)
+//@   props C03
+//@   requires !isNaN(v) && !isInf(v)
+//@   trusted strconv.AppendFloat of a finite value is a JSON number; output not modelled
+//@   assigns all
+
+//@ func AppendFloat64(ctx, b, v) (out)
+//@   props C03
+//@   requires !isNaN(v) && !isInf(v)
+//@   trusted strconv.AppendFloat of a finite value is a JSON number; output not modelled
+//@   assigns all
